@@ -125,7 +125,7 @@ class C01(fc.FlowCheck):
                     built.append(1)
                     if len(built) == 1:          # only the very first construction is slow
                         started.set()
-                        release.wait(10)
+                        release.wait(120)
 
                 def __call__(self, environ, start_response):
                     return self.nextapp(environ, start_response)
@@ -150,12 +150,12 @@ class C01(fc.FlowCheck):
             res = {}
             t1 = threading.Thread(target=lambda: res.__setitem__('first', wsgi.call(app, 'GET', '/')), daemon=True)
             t1.start()
-            started.wait(10)
+            started.wait(120)
             t2 = threading.Thread(target=lambda: res.__setitem__('second', wsgi.call(app, 'GET', second)), daemon=True)
             t2.start()
-            t2.join(10)
+            t2.join(120)
             release.set()
-            t1.join(10)
+            t1.join(120)
             self.count('concurrent first requests (lazy pipeline assembly)')
             want = {'/ir': 200, '/boom': 500, '/ok': 200}[second]
             for who, w in (('first', 200), ('second', want)):
